@@ -25,7 +25,15 @@ def absw(case):
     shrink_to_fit is an oracle: replaced by a -> min(max(mn, a), mx)."""
     from weasyprint.layout import absolute
     mn, mx = Fraction(case['mn']), Fraction(case['mx'])
+    original = absolute.shrink_to_fit
     absolute.shrink_to_fit = lambda context, box, a: min(max(mn, a), mx)
+    try:
+        return _absw(absolute, case)
+    finally:
+        absolute.shrink_to_fit = original          # the same worker renders whole documents later
+
+
+def _absw(absolute, case):
     box = SimpleNamespace(
         left=_v(case['l']), right=_v(case['r']), width=_v(case['w']),
         margin_left=_v(case['ml']), margin_right=_v(case['mr']),
@@ -58,7 +66,15 @@ def absr(case):
     used width/height are given (inline_replaced_box_width_height is stubbed out)."""
     from weasyprint.layout import absolute
     from weasyprint.formatting_structure import boxes
+    original = absolute.inline_replaced_box_width_height
     absolute.inline_replaced_box_width_height = lambda box, cb: None
+    try:
+        return _absr(absolute, boxes, case)
+    finally:
+        absolute.inline_replaced_box_width_height = original
+
+
+def _absr(absolute, boxes, case):
     h, v = case['h'], case['v']
     box = object.__new__(boxes.BlockReplacedBox)
     box.style = _style(case['ltr'])
@@ -281,6 +297,22 @@ def render_floats(case):
                 if kind == 'line':
                     cr = content_rect(b)
                     rec['cx'], rec['cw'] = (cr[0], cr[1] - cr[0]) if cr else (b.position_x, 0)
+                    # a float met after some in-flow content of the same line (mechanism of finding F50)
+                    seen_content, after = False, False
+
+                    def scan(x):
+                        nonlocal seen_content, after
+                        x = _unwrap(x)
+                        if isinstance(x, boxes.Box) and x.style['float'] in ('left', 'right'):
+                            after = after or seen_content
+                        elif isinstance(x, boxes.TextBox) or not getattr(x, 'children', None):
+                            seen_content = seen_content or (isinstance(x, boxes.Box) and x.is_in_normal_flow())
+                        else:
+                            for y in x.children:
+                                scan(y)
+                    for c in b.children:
+                        scan(c)
+                    rec['float_after_content'] = after
                 if kind == 'float':
                     rec['placed'] = placed.get(id(b))
                 recs.append(rec)
@@ -350,3 +382,7 @@ def render_positions(case):
         visit(page)
         out.append(seen)
     return out
+
+
+def render_relative_pair(case):
+    return {'with': render_positions({'html': case['html']}), 'without': render_positions({'html': case['html_plain']})}
